@@ -1040,8 +1040,8 @@ func runC06(c *Ctx) {
 
 func init() {
 	Register(&Monitor{ID: "C06", Run: func(c *Ctx) {
-		c.Rule = "hostile inputs (grammar-aware: every slot of symbol-table/import structs filled with every typed null, wrong type, duplicate, extreme number; extreme lengths/ids/exponents/years; deep nesting; byte-level mutations of valid documents in both formats; exhaustive short inputs) run in rlimited child processes through 6 API programs (full traversal with/without catalog, random call sequences continuing after errors, Decoder.Decode loop, Unmarshal into 27 target types). Oracle: no recovered panic, no fatal runtime error, values returned <= input bytes, TotalAlloc of one API run <= 1 MiB + 1 KiB/input byte, CPU <= 10 s (hang: > 30 s CPU, decided on CPU seconds of the child). Non-trivial: >= 3 API calls and > 4 input bytes; distinct by input bytes."
-		c.Assume("inputs are at most ~130 KiB; the allocation bound is 5 orders of magnitude above ordinary cost")
+		c.Rule = "hostile inputs (grammar-aware: every slot of symbol-table/import structs filled with every typed null, wrong type, duplicate, extreme number; extreme lengths/ids/exponents/years; nesting of 1000, 65000 and 1.5 to 7 million levels in text and binary; runs of 9,000,000 NOP pads; annotation lengths that disagree with their wrapper, children that overrun their parent, ids in the reserved high range, chains of appended symbol tables, thousands of long-string segments; byte-level mutations of valid documents in both formats; exhaustive short inputs) run in rlimited child processes through 6 API programs (full traversal with/without catalog, random call sequences continuing after errors, Decoder.Decode loop, Unmarshal into 33 target types). Oracle: no recovered panic, no fatal runtime error, values returned <= input bytes, TotalAlloc of one API run <= 1 MiB + 1 KiB/input byte, CPU <= 10 s (hang: > 30 s CPU, decided on CPU seconds of the child). Non-trivial: >= 3 API calls and > 4 input bytes; distinct by input bytes."
+		c.Assume("inputs are at most ~9 MB (most are below 130 KiB); the allocation bound (1 MiB + 1 KiB per input byte for each API call) is orders of magnitude above ordinary cost")
 		runC06(c)
 	}, Replay: func(c *Ctx, v *Violation) string {
 		var k HostileCase
